@@ -186,3 +186,16 @@ def alias_external(obj, key):
     from . import exec as X
     from .engine import unwrap_callable
     X.EXTERNAL_ALIASES[id(unwrap_callable(obj)[0])] = key
+
+
+FOLDS: dict = {}
+
+
+def register_fold(list_ty, upto_spec, prefix_lemma, concat_lemma=None):
+    """A fold over lists given as a recursive spec `upto(xs, k)` (fold of the first k elements).  The engine then
+    assumes, wherever the verified code appends to / concatenates lists of this type, the matching *instances of
+    the two lemmas* (which are proved by induction like any other lemma):
+        prefix_lemma(xs, ys, k):      all(xs[j] == ys[j] for j < k)  =>  upto(xs, k) == upto(ys, k)
+        concat_lemma(a, b, r, k):     r == a ++ b (elementwise) and 0 <= k <= len(b) =>  upto(r, len(a) + k) == upto(a, len(a)) (+) upto(b, k)
+    """
+    FOLDS.setdefault(list_ty.key, []).append((upto_spec, prefix_lemma, concat_lemma))
